@@ -8,7 +8,10 @@ Case format (all JSON):
    "more":[[INTER...]...]      (further sequences pushed through the SAME filter objects, one after the other, each judged on its own),
    "collection":true, "read_order":[member...]   (via "shortcuts" only: stream and more are the members of ONE Environments object; the
                                shortcuts are applied to the collection, the members are read in `read_order`, and every member must
-                               come out as a fresh pipeline on that member alone would give it)}
+                               come out as a fresh pipeline on that member alone would give it),
+   "abort":k                   (round g: BEFORE everything else the same filter objects are given `stream` from a source that raises
+                               ConnectionError when item k is requested — an aborted first read; then `stream` (the complete re-read) and `more`
+                               are judged as usual.  What the aborted read leaves in a Densify(lookup) table — the keys of items < k — is fed to the model as `prior`)}
   INTER = {"context":V, "actions":[V...]?, "rewards":REW?, "feedbacks":REW?, "action":V?, "reward":Q?, "probability":Q?,
            "order":[key...]?   (the insertion order of the interaction dict's keys; default = the constructor's order)}
   V     = null | {"n":[num,den]} | {"s":str} | {"c":str,"L":[str...]} | {"l":[V...]} | {"t":[V...]} | {"d":[[key,V]...]}
@@ -396,6 +399,18 @@ def effective_chain(case):
         if not any(st["f"] == "finalize" and b for st, b in zip(ch, bstates)):
             ch.append({"f": "finalize", "implicit": True})
     return ch
+
+
+def aborting_source(case, seq, k):
+    """a source that loses its connection when item k is requested (always a generator of fresh objects)"""
+    wrap = case.get("wrap")
+
+    def gen():
+        for t, it in enumerate(seq):
+            if t == k:
+                raise ConnectionError("connection lost")
+            yield mk_inter(it, wrap)
+    return gen
 
 
 # ------------------------------------------------------------------ observation
@@ -1330,10 +1345,148 @@ class Gen:
             out["delivery"] = case["delivery"]
         return out
 
+    def aborted_densify_case(self):
+        """round g: one Densify(lookup, action=True) object whose first read is aborted by a raising source at a chosen item, then read completely
+        (a re-run): sparse indicator-like actions over as many features as there are slots (or one less), few features before the failure, all of them
+        afterwards, rewards as DiscreteReward / BinaryReward / function / list, simulated, IGL and logged"""
+        r = self.r
+        nf = r.choice([3, 4, 4, 5, 6, 8])
+        feats = r.shuffle(["a", "b", "c", "d", "e", "f", "g", "h", "k0", "x_1"])[:nf]
+        val = lambda: V_n(r.choice([1, 1, 1, 2, 5]))
+        nint = r.choice([3, 4, 4, 5])
+        k = r.randint(1, nint - 1)
+        few = r.choice([1, 2, 2, max(1, nf // 2)])
+        kind = r.wchoice([(55, "sim"), (20, "igl"), (25, "logged")])
+        rk = r.wchoice([(35, "discrete"), (25, "fn"), (25, "binary"), (15, "list")])
+        logged_with_rewards = r.chance(0.5)
+        stream = []
+        for t in range(nint):
+            fs = feats[:few] if t < k else (feats if r.chance(0.7) else r.shuffle(feats)[:r.randint(max(2, nf - 1), nf)])
+            if r.chance(0.3):
+                fs = r.shuffle(fs)
+            acts = [{"d": [[f, val()]]} for f in fs]
+            vals = [[1 + feats.index(f), 4] for f in fs]
+            if rk == "discrete":
+                R = {"k": "discrete", "actions": acts, "values": vals, "default": [0, 1], "dict": False}
+            elif rk == "fn":
+                R = {"k": "fn", "table": [[a, v] for a, v in zip(acts, vals)], "default": FN_DEFAULT}
+            elif rk == "binary":
+                R = {"k": "binary", "argmax": acts[-1], "value": [2, 1]}
+            else:
+                R = {"k": "list", "v": vals}
+            it = {"context": None, "actions": acts}
+            if kind == "logged":
+                j = r.below(len(acts))
+                it.update({"action": acts[j], "reward": [1, 2], "probability": [1, 4]})
+                if logged_with_rewards:          # one layout for the whole stream (every coba filter decides on the first interaction)
+                    it["rewards"] = R
+            elif kind == "igl":
+                it["rewards"] = {"k": "list", "v": vals}
+                it["feedbacks"] = R if rk != "list" else {"k": "fn", "table": [[a, v] for a, v in zip(acts, vals)], "default": FN_DEFAULT}
+            else:
+                it["rewards"] = R
+            stream.append(it)
+        chain = [{"f": "densify", "n": nf + r.choice([0, 0, 0, 1]), "m": "lookup", "c": r.chance(0.3), "a": True}]
+        if r.chance(0.25):
+            chain.append(r.choice([{"f": "finalize"}, {"f": "sparsify", "c": False, "a": True}, {"f": "batch", "n": 2}]))
+        case = {"stream": stream, "chain": chain, "via": r.wchoice([(40, "filters"), (30, "pipes"), (30, "shortcuts")]), "abort": k}
+        if r.chance(0.4):
+            case["delivery"] = "lazy"
+        if r.chance(0.25):
+            case["wrap"] = r.choice(["lazysparse", "hashable"])
+        return case
+
+    def hetero_logged_case(self):
+        """round g: logged interactions whose action sets mix members that nest their features differently — a plain id or a nested id, followed
+        by nested features: (1,(2,3)) next to ((4,),(5,6)) — with the logged action at ANY index including 0, and the first logged action of the
+        stream nested differently from the first member of the first action set (Flatten / Repr derive one pattern from the first member of the first
+        set and another from the first logged action, so the logged action has to be re-taken from the re-represented set)"""
+        r = self.r
+        box = r.choice(["t", "t", "l"])
+        cnt = [0]
+
+        def num():
+            cnt[0] += 1
+            return V_n(cnt[0] if r.chance(0.8) else -cnt[0])
+
+        def member(shape):
+            head = num() if shape == "P" else {box: [num() for _ in range(r.choice([1, 1, 2]) if shape == "Q" else 1)]}
+            return {box: [head, {box: [num(), num()]}]}
+        nint = r.choice([2, 3, 3, 4])
+        first_shape = r.choice(["P", "Q"])
+        other = "Q" if first_shape == "P" else "P"
+        rk = r.wchoice([(30, "none"), (25, "list"), (25, "discrete"), (20, "fn")])
+        stream = []
+        for t in range(nint):
+            n = r.choice([2, 2, 3])
+            shapes = [r.choice(["P", "Q"]) for _ in range(n)]
+            if t == 0:
+                shapes[0] = first_shape
+            if other not in shapes:
+                shapes[r.randint(1, n - 1) if t == 0 else r.below(n)] = other
+            acts = [member(sh) for sh in shapes]
+            # the logged action: of the `other` shape (the shape of the first logged action) in 85 % of the interactions, at index 0 whenever possible
+            cands = [i for i, sh in enumerate(shapes) if sh == other] if (t == 0 or r.chance(0.85)) else list(range(n))
+            j = 0 if (0 in cands and r.chance(0.7)) else r.choice(cands)
+            vals = [[i + 1, 4] for i in range(n)]
+            it = {"context": r.choice([None, {box: [V_n(1), {box: [V_n(2), V_n(3)]}]}]), "actions": acts, "action": acts[j], "reward": vals[j], "probability": [1, 4]}
+            if rk == "list":
+                it["rewards"] = {"k": "list", "v": vals}
+            elif rk == "discrete":
+                it["rewards"] = {"k": "discrete", "actions": acts, "values": vals, "default": [0, 1], "dict": False}
+            elif rk == "fn":
+                it["rewards"] = {"k": "fn", "table": [[a, v] for a, v in zip(acts, vals)], "default": FN_DEFAULT}
+            stream.append(it)
+        chain = [r.wchoice([(70, {"f": "flatten"}), (15, {"f": "finalize"}), (15, {"f": "repr", "cc": None, "ca": "onehot"})])]
+        if r.chance(0.3):
+            chain.append(r.choice([{"f": "finalize"}, {"f": "flatten"}, {"f": "batch", "n": 2}, {"f": "sparsify", "c": False, "a": True}]))
+        case = {"stream": stream, "chain": chain, "via": r.wchoice([(55, "filters"), (15, "pipes"), (30, "shortcuts")])}
+        if r.chance(0.3):
+            case["delivery"] = "lazy"
+        return case
+
+    def noise_scalar_case(self):
+        """phase 4: numeric scalar actions through Noise — mostly through the real `Environments.noise(...)` shortcut — with an
+        injective noiser (x*mul+add, mul != 0), no action noise, a collapsing one (mul = 0) or a generator-driven one; simulated,
+        IGL and logged streams with list / functional rewards and feedbacks (the inputs of `noise_scalar_aligned`)"""
+        r = self.r
+        P = {"sc": ("num",), "csc": r.choice([("num",), ("none",), self.dense_schema()]), "k": r.choice([2, 3, 3, 4, 5]),
+             "kind": r.wchoice([(40, "sim"), (30, "igl"), (30, "logged")]), "callable_class": r.chance(0.75), "fb_callable": r.chance(0.75),
+             "mode": r.wchoice([(40, "repeat"), (45, "fresh"), (15, "mixed")]), "force": None if r.chance(0.25) else "same"}
+        P["has_actions"] = r.chance(0.95)
+        P["with_rewards"] = P["has_actions"] and r.chance(0.15)
+        stream = self.build_stream(P, r.choice([1, 2, 2, 3, 4]))
+        w = r.below(100)
+        if w < 60:
+            a = {"kind": "fn", "mul": r.choice([1, 2, -1, 3, -2]), "add": r.choice([0, 1, 10, -4, 100])}
+        elif w < 70:
+            a = None
+        elif w < 80:
+            a = {"kind": "fn", "mul": 0, "add": r.choice([0, 5])}
+        else:
+            a = self.noise()
+        st = {"f": "noise", "c": self.noise() if (a is None or r.chance(0.3)) else None, "a": a, "seed": r.choice([1, 1, 2, 7])}
+        chain = [st]
+        batched = r.chance(0.15)
+        if r.chance(0.3):
+            chain.append(self.step(batched))      # never a Batch on an already batched stream (outside the modelled / monitored protocol)
+        if batched:
+            chain.insert(0, {"f": "batch", "n": r.choice([1, 2, 3])})
+        case = {"stream": stream, "chain": chain, "via": r.wchoice([(65, "shortcuts"), (25, "filters"), (10, "pipes")])}
+        if r.chance(0.3):
+            case["delivery"] = "lazy"
+        return case
+
     def case(self, tier, focus=None):
         r = self.r
         if focus is None and r.chance(0.03):
             return self.long_repr_case()
+        if focus is None and r.chance(0.05):
+            return self.noise_scalar_case()
+        if focus is None and r.chance(0.04):
+            return self.aborted_densify_case()
+        if focus is None and r.chance(0.04):
+            return self.hetero_logged_case()
         # "long": 20-60 interactions with fresh action objects each, delivered lazily (objects of earlier interactions die while reading)
         long_ = focus is None and r.chance(0.07)
         reuse = (not long_ and r.chance(0.15)) or (long_ and r.chance(0.2))
@@ -1425,6 +1578,10 @@ class C10(Property):
         "is tied to the code by the reuse cases (same objects, several sequences) and by comparing the object's `_lookup` with densifyRun's final table",
         "batched rewards: the model's batchCall / batchObs (member k's function on member k's action) are compared with the real Batch.Callable protocol on every "
         "list-delivered case whose final stream is batched (tag batch-obs-checked); pairwiseNeB is compared with Python's != on every case",
+        "translator tie (pre_build): Finalize's Repr(\"onehot\",\"onehot\"), Sparsify's default headers, the seed of Densify's slot generator, Cycle's "
+        "rotation constants and its `i >= after` comparison are re-extracted with ast from coba/environments/filters.py of the tree under test into "
+        "Generated/C10Consts.lean on every run; source_constants_match / model_uses_constants (decide / rfl) tie them to the model's definitions; "
+        "the extraction itself (ast patterns) is trusted, a reshaped source falls back to the model's constants and says so in the evidence",
         "the shape predicates of the injectivity theorems (denseCatShapeB, flattenShapeB) are evaluated by the driver on the real inputs of Repr/Flatten steps "
         "and their conclusion (the real filter keeps the action set a set) is checked on the real output",
     ]
@@ -1446,6 +1603,11 @@ class C10(Property):
         "densify_lookup_injective (not stated as a theorem)": "open: distinct slots ⇒ distinct SparseDense rows; the table side is proved (densify_prior_monotone, "
                      "densify_state_is_keys, fresh_densify_object), hashing is shown to fail genuinely (densify_hashing_counterexample); the injectivity of the "
                      "densified actions stays a per-case evaluated hypothesis compared with the real filter",
+        "noise_scalar_aligned": "full strength for numeric scalar actions (no run-time-evaluated hypothesis: injNoiser + noiseScalarHypB are decidable "
+                     "predicates of the noiser and of the INPUT stream); the driver evaluates them at every Noise step (tag noise-scalar-hyp) and the real "
+                     "filter's output is checked against the conclusion. Noise on row-valued / sparse actions and generator-driven noisers stay under chain_aligned",
+        "pyEq_trans": "proved on wfNoLazy values (numbers, strings, categoricals, lists, tuples, dicts with unique keys); fails with SparseDense rows "
+                     "(pyEq_not_transitive_counterexample: [1] == SparseDense == (1,)), and Python's nan != nan is outside the rational-valued model and the generator",
         "pyEq_symm": "proved on the dense fragment (numbers, strings, categoricals, nested lists/tuples); for dicts and SparseDense rows symmetry is "
                      "checked per case against Python's == in both directions (tag pyEq-checked) but not proved",
         "pyEq_refl": "proved for values without SparseDense whose dict keys are unique (wfNoLazy); SparseDense rows not covered",
@@ -1453,11 +1615,115 @@ class C10(Property):
                       "Cycle step that rotates as outside its hypotheses (targetHypB (.rotate _) = false)",
     }
 
+    # ---- translator step: constants of the anchored source, re-extracted with `ast` from the tree under test on every run
+    def pre_build(self):
+        import ast
+        from core import lean
+        repo = os.environ.get("COBA_REPO", "/repo")
+        dflt = {"finalize": ["onehot", "onehot"], "headers": ["context", "action", "action"], "seed": 1, "shifts": [1, 1], "inclusive": True}
+        got, notes = {}, []
+        try:
+            tree = ast.parse(open(os.path.join(repo, "coba", "environments", "filters.py"), encoding="utf-8").read())
+            classes = {n.name: n for n in tree.body if isinstance(n, ast.ClassDef)}
+
+            def calls(node):
+                return sorted((n for n in ast.walk(node) if isinstance(n, ast.Call)), key=lambda n: (n.lineno, n.col_offset))
+
+            def fname(c):
+                return c.func.id if isinstance(c.func, ast.Name) else c.func.attr if isinstance(c.func, ast.Attribute) else None
+
+            def method(cls, name):
+                return next((n for n in classes[cls].body if isinstance(n, ast.FunctionDef) and n.name == name), None) if cls in classes else None
+            # Finalize: Repr("onehot","onehot")
+            for c in calls(classes["Finalize"]) if "Finalize" in classes else []:
+                if fname(c) == "Repr" and len(c.args) == 2 and all(isinstance(a, ast.Constant) and (a.value is None or isinstance(a.value, str)) for a in c.args) and not c.keywords:
+                    got["finalize"] = ["None" if a.value is None else a.value for a in c.args]
+                    break
+            # Sparsify.filter: the default headers handed to _make_sparse (directly or through repeat(...))
+            m = method("Sparsify", "filter")
+            if m is not None:
+                hs = []
+                for c in calls(m):
+                    if fname(c) == "_make_sparse" and len(c.args) >= 3 and isinstance(c.args[2], ast.Constant) and isinstance(c.args[2].value, str):
+                        hs.append(((c.lineno, c.col_offset), c.args[2].value))
+                    elif fname(c) == "repeat" and len(c.args) == 1 and isinstance(c.args[0], ast.Constant) and isinstance(c.args[0].value, str):
+                        hs.append(((c.lineno, c.col_offset), c.args[0].value))
+                if hs:
+                    got["headers"] = [h for _, h in sorted(hs)]
+            # Densify: CobaRandom(seed=1)
+            for c in calls(classes["Densify"]) if "Densify" in classes else []:
+                if fname(c) == "CobaRandom":
+                    v = c.args[0] if c.args else next((k.value for k in c.keywords if k.arg == "seed"), None)
+                    if isinstance(v, ast.Constant) and isinstance(v.value, int) and not isinstance(v.value, bool) and v.value >= 0:
+                        got["seed"] = v.value
+                        break
+            # Cycle.filter: rotate = lambda l: l[-1%n:] + l[:-1%n]  and  `if i >= self._after`
+            m = method("Cycle", "filter")
+            if m is not None:
+                lam = next((n.value for n in ast.walk(m) if isinstance(n, ast.Assign) and isinstance(n.value, ast.Lambda)
+                            and any(isinstance(t, ast.Name) and t.id == "rotate" for t in n.targets)), None)
+                if lam is not None:
+                    body = lam.body
+                    ok = (isinstance(body, ast.BinOp) and isinstance(body.op, ast.Add)
+                          and all(isinstance(x, ast.Subscript) and isinstance(x.slice, ast.Slice) for x in (body.left, body.right))
+                          and body.left.slice.upper is None and body.left.slice.lower is not None
+                          and body.right.slice.lower is None and body.right.slice.upper is not None)
+                    if ok:
+                        sh = []
+                        for e in (body.left.slice.lower, body.right.slice.upper):
+                            if (isinstance(e, ast.BinOp) and isinstance(e.op, ast.Mod) and isinstance(e.left, ast.UnaryOp) and isinstance(e.left.op, ast.USub)
+                                    and isinstance(e.left.operand, ast.Constant) and isinstance(e.left.operand.value, int)):
+                                sh.append(e.left.operand.value)
+                        if len(sh) == 2:
+                            got["shifts"] = sh
+                for n in ast.walk(m):
+                    if isinstance(n, ast.Compare) and len(n.ops) == 1 and any(isinstance(x, ast.Attribute) and x.attr == "_after" for x in [n.left] + n.comparators):
+                        left_is_after = isinstance(n.left, ast.Attribute) and n.left.attr == "_after"
+                        op = type(n.ops[0])
+                        if (op, left_is_after) in ((ast.GtE, False), (ast.LtE, True)):
+                            got["inclusive"] = True
+                        elif (op, left_is_after) in ((ast.Gt, False), (ast.Lt, True)):
+                            got["inclusive"] = False
+                        break
+        except Exception as e:      # unreadable / reshaped source: the obligations fall back to the model's constants (stated in the evidence)
+            notes.append("C10 constants: extraction failed (%s)" % type(e).__name__)
+        vals = dict(dflt)
+        vals.update(got)
+        self._extracted = got
+        missing = sorted(set(dflt) - set(got))
+
+        def lstr(xs):
+            return "[" + ", ".join('"%s"' % x.replace("\\", "\\\\").replace('"', '\\"') for x in xs) + "]"
+        body = ("-- GENERATED by harness/props/c10.py from coba/environments/filters.py on every run; do not edit.\n"
+                "namespace Coba.Generated.C10\n"
+                "def finalizeReprModes : List String := %s\n"
+                "def sparsifyHeaders : List String := %s\n"
+                "def densifySeed : Nat := %d\n"
+                "def cycleShifts : List Nat := [%s]\n"
+                "def cycleAfterInclusive : Bool := %s\n"
+                "def extracted : Bool := %s\n"
+                "end Coba.Generated.C10\n"
+                % (lstr(vals["finalize"]), lstr(vals["headers"]), vals["seed"], ", ".join(str(abs(int(x))) for x in vals["shifts"]),
+                   "true" if vals["inclusive"] else "false", "true" if not missing else "false"))
+        path = os.path.join(lean.LEAN_DIR, "CobaVerif", "Generated", "C10Consts.lean")
+        old = open(path, encoding="utf-8").read() if os.path.exists(path) else None
+        if old != body:
+            os.makedirs(os.path.dirname(path), exist_ok=True)
+            with open(path, "w", encoding="utf-8") as f:
+                f.write(body)
+        notes.append("C10 constants extracted from coba/environments/filters.py: %s%s"
+                     % (json.dumps(got, sort_keys=True), "; NOT found (model's own value used): %s" % missing if missing else ""))
+        return notes
+
     def generate(self, rng, tier):
         return Gen(rng).case(tier)
 
     def search(self, rng, tier):
         g = Gen(rng)
+        if rng.chance(0.08):
+            return g.noise_scalar_case()
+        if rng.chance(0.12):
+            return g.aborted_densify_case() if rng.chance(0.5) else g.hetero_logged_case()
         if rng.chance(0.3):
             return g.indicator_collection(None, None) if rng.chance(0.35) else g.layout_collection() if rng.chance(0.5) else g.long_repr_case() if rng.chance(0.5) else g.case(tier)
         focus = rng.choice([
@@ -1529,6 +1795,41 @@ class C10(Property):
 
     def corpus(self):
         cs = [dict(_copy(c), via="filters") for c in WITNESSES.values()]
+        # round g (1): Flatten on logged interactions whose members nest differently, logged member at index 0 / 1, the first logged action nested
+        # differently from the first member of the first action set
+        def T(*xs):
+            return {"t": [x if isinstance(x, dict) else V_n(x) for x in xs]}
+        mixed = [[T(1, T(2, 3)), T(T(4), T(5, 6))], [T(T(7), T(8, 9)), T(1, T(2, 3))], [T(1, T(2, 3)), T(T(4), T(5, 6))]]
+        for logged in ([1, 0, 1], [1, 0, 0], [1, 1, 0]):
+            for rk in ("none", "list", "discrete", "fn"):
+                for ch, via in (([{"f": "flatten"}], "filters"), ([{"f": "flatten"}, {"f": "finalize"}], "filters"), ([{"f": "flatten"}], "shortcuts")):
+                    st_ = []
+                    for acts, j in zip(mixed, logged):
+                        vals = [[1, 4], [1, 2]]
+                        it = {"context": T(1, T(2, 3)), "actions": acts, "action": acts[j], "reward": vals[j], "probability": [1, 4]}
+                        if rk == "list":
+                            it["rewards"] = {"k": "list", "v": vals}
+                        elif rk == "discrete":
+                            it["rewards"] = {"k": "discrete", "actions": acts, "values": vals, "default": [0, 1], "dict": False}
+                        elif rk == "fn":
+                            it["rewards"] = {"k": "fn", "table": [[a, v] for a, v in zip(acts, vals)], "default": FN_DEFAULT}
+                        st_.append(it)
+                    cs.append({"stream": st_, "chain": ch, "via": via})
+        # round g (2): one Densify(lookup) object, first read aborted after the first interaction (features a,b handed out), then the complete re-read
+        # (a,b,c,d on 4 slots: crosses the permutation boundary of the slot generator)
+        F4 = ["a", "b", "c", "d"]
+        for rk in ("discrete", "binary", "fn"):
+            for via in ("filters", "pipes", "shortcuts"):
+                for k in (1, 2):
+                    st_ = []
+                    for fs in (F4[:2], F4, F4, F4[1:]):
+                        acts = [{"d": [[f, V_n(1)]]} for f in fs]
+                        vals = [[1 + F4.index(f), 4] for f in fs]
+                        R = ({"k": "discrete", "actions": acts, "values": vals, "default": [0, 1], "dict": False} if rk == "discrete" else
+                             {"k": "binary", "argmax": acts[-1], "value": [2, 1]} if rk == "binary" else
+                             {"k": "fn", "table": [[a, v] for a, v in zip(acts, vals)], "default": FN_DEFAULT})
+                        st_.append({"context": None, "actions": acts, "rewards": R})
+                    cs.append({"stream": st_, "chain": [{"f": "densify", "n": 4, "m": "lookup", "c": False, "a": True}], "via": via, "abort": k})
         # densify_hashing_counterexample on the real code: crc32('a') % 7 == crc32('b') % 7 == 4 (a collision by design: excused in (B), compared in (A))
         ha, hb = {"d": [["a", V_n(1)]]}, {"d": [["b", V_n(1)]]}
         cs.append({"stream": [{"context": None, "actions": [ha, hb], "rewards": {"k": "fn", "table": [[ha, [5, 1]], [hb, [6, 1]]], "default": FN_DEFAULT}}],
@@ -1655,6 +1956,34 @@ class C10(Property):
         order = [m for m in (case.get("read_order") or range(len(seqs))) if 0 <= m < len(seqs)] if collection else list(range(len(seqs)))
         if collection:
             tags.append("collection:%d" % len(seqs))
+        if case.get("abort") is not None and not collection:
+            # round g: an aborted first read of `stream` on the SAME filter objects (pipeline objects and step-wise objects alike); nothing of it
+            # is judged, but what it leaves behind in the objects is part of the history of every later read
+            k = int(case["abort"])
+            tags.append("aborted-read")
+            outcome = []
+            if pipe is not None:
+                try:
+                    for _ in pipe.run(aborting_source(case, case["stream"], k), 0):
+                        pass
+                    outcome.append(None)
+                except Exception as e:
+                    outcome.append(type(e).__name__)
+            if stepw.filters:
+                try:
+                    for _ in stepw.filters[0].filter(aborting_source(case, case["stream"], k)()):
+                        pass
+                    outcome.append(None)
+                except Exception as e:
+                    outcome.append(type(e).__name__)
+            clean = all(o == "ConnectionError" for o in outcome)
+            tags.append("aborted-read:" + ("at-item" if clean else "other"))
+            for i, st in enumerate(chain):
+                if st["f"] == "densify" and st["m"] == "lookup":
+                    if i == 0 and clean and 0 <= k <= len(case["stream"]):
+                        prior[i] = densify_keys(st, members([mk_inter(it, case.get("wrap")) for it in case["stream"][:k]])[0])
+                    else:
+                        prior[i] = None
         for si, mi in enumerate(order):
             seq = seqs[mi]
             if collection:
@@ -1706,6 +2035,30 @@ class C10(Property):
                     fails.append(F("A", "Python `==` on %s and %s is %s, the model's pyEq says %s" % (json.dumps(rows[i])[:150], json.dumps(rows[j])[:150], py_eq(a, b), ans["eq"][i][j]), "A:pyEq"))
             if ans["wf"][i] and not ans["eq"][i][i]:
                 fails.append(F("C", "pyEq_refl: well-formed value %s is not equal to itself in the model" % json.dumps(rows[i])[:150], "C:pyEq-refl"))
+        if ans.get("isNum") is not None:
+            for i, a in enumerate(objs):
+                real_num = isinstance(a, (int, float)) and not isinstance(a, bool)
+                if real_num != ans["isNum"][i]:
+                    fails.append(F("A", "is %s a number: Python %s, model isNum %s" % (json.dumps(rows[i])[:150], real_num, ans["isNum"][i]), "A:isNum"))
+            n_ = len(rows)
+            if (lambda l: l[-1 % n_:] + l[:-1 % n_])(list(range(n_))) != ans["cycleSource"]:
+                fails.append(F("A", "rotation l[-1%%n:]+l[:-1%%n] of range(%d): model cycleSource %s" % (n_, ans["cycleSource"]), "A:cycleSource"))
+            if [i >= 1 for i in range(3)] != ans["cycleRotatesAt"]:
+                fails.append(F("A", "i >= after for after=1: model cycleRotatesAt %s" % ans["cycleRotatesAt"], "A:cycleRotatesAt"))
+            ext = getattr(PROPERTY, "_extracted", None)
+            if ext:
+                mc = ans["consts"]
+                mine = {"finalize": mc["finalize"], "headers": mc["headers"], "seed": mc["seed"], "shifts": [mc["shift"], mc["shift"]]}
+                for key in mine:
+                    if key in ext and ext[key] != mine[key]:
+                        fails.append(F("A", "constant `%s`: source %s, model %s" % (key, ext[key], mine[key]), "A:const:" + key))
+                tags.append("consts-checked")
+            # transitivity of == (pyEq_trans) on the well-formed values of this case, against the model's own matrix
+            for i in range(len(objs)):
+                for j in range(len(objs)):
+                    for k in range(len(objs)):
+                        if ans["wf"][i] and ans["wf"][j] and ans["wf"][k] and ans["eq"][i][j] and ans["eq"][j][k] and not ans["eq"][i][k]:
+                            fails.append(F("C", "pyEq_trans fails in the model on %s / %s / %s" % (json.dumps(rows[i])[:80], json.dumps(rows[j])[:80], json.dumps(rows[k])[:80]), "C:pyEq-trans"))
         real_ne = all(i == j or not py_eq(objs[i], objs[j]) for i in range(len(objs)) for j in range(len(objs)))
         if ans.get("pairwiseNe") is not None and ans["pairwiseNe"] != real_ne:
             fails.append(F("A", "pairwise `!=` of %s: Python %s, model pairwiseNeB %s" % (json.dumps(rows)[:200], real_ne, ans["pairwiseNe"]), "A:pairwiseNe"))
@@ -1921,6 +2274,22 @@ class C10(Property):
             fails.append(F("C", "model: hypotheses of chain_aligned hold but the model's output is not aligned", "C:chain"))
         if ans.get("hyp"):
             tags.append("hyp")
+        # noise_scalar_aligned: where its explicit preconditions hold for the stream reaching a Noise step, the model's step is aligned (C)
+        # and the real filter must have kept every action list a set and the step aligned (no "merged by design" excuse is possible)
+        for nh in ans.get("noise_hyps") or []:
+            if not nh.get("hyp"):
+                tags.append("noise-scalar-hyp:no")
+                continue
+            tags.append("noise-scalar-hyp")
+            if not nh.get("aligned"):
+                fails.append(F("C", where + "model: preconditions of noise_scalar_aligned hold at step %d but the model's step is not aligned" % nh["i"], "C:noise-scalar"))
+            i = nh["i"]
+            if i < len(steps) and not impl["error"]:
+                _, before_, after_ = steps[i]
+                for t, (o_, n_) in enumerate(zip(before_, after_)):
+                    if "actions" in n_ and not pairwise_distinct(list(n_["actions"])):
+                        fails.append(F("A", where + "noise step %d, interaction %d: preconditions of noise_scalar_aligned hold but the real Noise merged two actions: %s -> %s"
+                                       % (i, t, json.dumps([enc(a) for a in o_.get("actions", [])])[:200], json.dumps([enc(a) for a in n_["actions"]])[:200]), "A:noise-scalar-injective"))
         if impl["error"] or model.get("error"):
             if bool(impl["error"]) != bool(model.get("error")):
                 fails.append(F("A", where + "implementation %s, model %s" % ("raised " + impl["error"] if impl["error"] else "returned", "raised " + str(model.get("error")) if model.get("error") else "returned"), "A:error"))
@@ -1970,6 +2339,16 @@ class C10(Property):
 
     # ---- shrinking
     def shrink(self, case):
+        if case.get("abort") is not None:
+            yield {k: v for k, v in case.items() if k != "abort"}
+            if case["abort"] > 1:
+                yield dict(case, abort=case["abort"] - 1)
+            if len(case["stream"]) > case["abort"] + 1:
+                yield dict(case, stream=case["stream"][:-1])
+            for key in ("delivery", "wrap"):
+                if case.get(key):
+                    yield {k: v for k, v in case.items() if k != key}
+            return
         st, ch = case["stream"], case["chain"]
         more = case.get("more") or []
         if case.get("collection"):
@@ -2036,9 +2415,12 @@ class C10(Property):
 
     def snippet(self, case):
         return ("import sys, json; sys.path[:0] = [%r, '/verif/harness']\n"
-                "from props.c10 import Pipeline, sequences, source_of, members, mk_inter, obs_target, logged_index\n"
+                "from props.c10 import Pipeline, sequences, source_of, aborting_source, members, mk_inter, obs_target, logged_index\n"
                 "case = json.loads(%r)\n"
                 "pipe = Pipeline(case)          # the filter objects / the Environments collection are built once\n"
+                "if case.get('abort') is not None:   # an aborted first read of the same objects: the source raises at item `abort`\n"
+                "    try: list(pipe.run(aborting_source(case, case['stream'], case['abort']), 0))\n"
+                "    except ConnectionError: print('first read aborted at item', case['abort'])\n"
                 "seqs = sequences(case)\n"
                 "order = case.get('read_order') if case.get('collection') else range(len(seqs))\n"
                 "for m in order:                # collection: the members of one Environments object, read in this order\n"
